@@ -150,6 +150,58 @@ def run(ctx):
         if got != exp:
             ctx.fail("oracle", "date listed for an entry created at a pinned instant is not that instant", {"unix": unix, "script": sc},
                      expected=exp, actual=got)
+    # (e) the three date triples of the root block (0x1a4 root alteration, 0x1d8 volume alteration, 0x1e4 creation) on every kind of
+    # device: after a format at t1 the creation and volume-alteration triples are t1 and the root-alteration triple is t1 or still
+    # unstamped (0,0,0); after a mkdir in the root at t2 creation is still t1 and the other two are t2
+    def amiga(t):
+        return ((t - datetime.datetime(1978, 1, 1)).days, t.hour * 60 + t.minute, t.second * 50)
+    kinds = [("DD", ["newdev mem 80 2 11", "mkflop %d %s"], 0), ("HD", ["newdev mem 80 2 22", "mkflop %d %s"], 0),
+             ("hardfile", ["newdev file 4100 1 1", "mkhdf %d %s"], 0),
+             ("partition", ["newdev mem 120 4 17", "mkhd 2 2 58 %d %s 60 58 3 " + common.hexs("Second")], 1)]
+    for i, t1 in enumerate(instants[:6] + instants[-2:]):
+        t2 = t1 + datetime.timedelta(seconds=86400 * 3 + 3723)
+        for kname, (nd, mk), part in [(k[0], k[1], k[2]) for k in kinds]:
+            flav = (i + len(kname)) % 8
+            u1 = int((t1 - datetime.datetime(1970, 1, 1)).total_seconds())
+            u2 = int((t2 - datetime.datetime(1970, 1, 1)).total_seconds())
+            L = ["clock %d" % u1, nd, mk % (flav, common.hexs("T")), "closedev", "mountdev 0", "mount %d 0" % part, "dump $W/a.img",
+                 "clock %d" % u2, "mkdir - %s" % common.hexs("d"), "umount", "umountdev", "dump $W/b.img"]
+            rc, out, err, wd = common.run_script(ctx, "\n".join(L) + "\n")
+            res = common.parse_results(out)
+            m = common.kv((res.get(6) or ["err"])[-1])
+            if m[0] != "ok":
+                ctx.fail("oracle", "cannot mount a freshly formatted volume", {"script": L}, expected="ok", actual=out[-300:])
+                continue
+            root = int(m[1]["root"]) + int(m[1]["first"])
+
+            def trip(img):
+                with open(os.path.join(wd, img), "rb") as f:
+                    f.seek(root * 512)
+                    b = f.read(512)
+                g = lambda o: tuple(int.from_bytes(b[o + 4 * k:o + 4 * k + 4], "big") for k in range(3))
+                return g(0x1a4), g(0x1d8), g(0x1e4)
+            a1, v1, c1 = trip("a.img")
+            a2, v2, c2 = trip("b.img")
+            L2 = L
+            ctx.count(("rootstamp", kname, flav, u1))
+            ctx.bump("root_stamps:" + kname)
+            e1, e2 = amiga(t1), amiga(t2)
+            bad = []
+            if c1 != e1:
+                bad.append(("creation stamp after format", e1, c1))
+            if v1 != e1:
+                bad.append(("volume-alteration stamp after format", e1, v1))
+            if a1 not in (e1, (0, 0, 0)):
+                bad.append(("root-alteration stamp after format", "%s or unstamped" % (e1,), a1))
+            if c2 != e1:
+                bad.append(("creation stamp after a later mkdir", e1, c2))
+            if v2 != e2:
+                bad.append(("volume-alteration stamp after a mkdir", e2, v2))
+            if a2 != e2:
+                bad.append(("root-alteration stamp after a mkdir in the root", e2, a2))
+            for what, e, g in bad[:1]:
+                ctx.fail("oracle", "root block of a %s volume: %s is not the clock's instant (days, minutes, ticks)" % (kname, what),
+                         {"unix_format": u1, "unix_mkdir": u2, "flavour": flav, "script": L2}, expected=str(e), actual=str(g))
     ctx.sample({"stamp_instant": str(instants[0])})
     rule = ("leaf calls: every day count / date of the tier's set (thorough: all of 0..45000 and all of 1978-01-01..2100-12-31 x 3 times of day); "
             "distinct = distinct call lines; non-trivial = every call (each is a different calendar position); plus image-level stamps at pinned instants")
